@@ -1,0 +1,10 @@
+//go:build verif
+
+package proxy
+
+import "reservoir/cache"
+
+// VerifCache exposes the proxy's cache to the verification harness. Verification builds only.
+func (p *Proxy) VerifCache() cache.Cache[cachedRequestInfo] {
+	return p.cache
+}
